@@ -137,6 +137,7 @@ Definition enc_err (e : err) : sexp :=
   | RecursionError => SL [SI 1; SI 4] | IndexError => SL [SI 1; SI 5] | KeyError => SL [SI 1; SI 6]
   | InternalError => SL [SI 1; SI 7] | OutOfFuel => SL [SI 1; SI 8] | Crash => SL [SI 1; SI 9]
   | UserExn id => SL [SI 1; SI 10; SI id]
+  | WarningError => SL [SI 1; SI 11]
   end.
 Definition enc_res {A} (f : A -> sexp) (r : res A) : sexp :=
   match r with Ok a => SL [SI 0; f a] | Err e => enc_err e end.
